@@ -165,14 +165,13 @@ func (tr *Transaction) Delete(key []byte, wo *opt.WriteOptions) error {
 //
 // It is safe to modify the contents of the arguments after Write returns.
 func (tr *Transaction) Write(b *Batch, wo *opt.WriteOptions) error {
-	if b == nil || b.Len() == 0 {
-		return nil
-	}
-
 	tr.lk.Lock()
 	defer tr.lk.Unlock()
 	if tr.closed {
 		return errTransactionDone
+	}
+	if b == nil || b.Len() == 0 {
+		return nil
 	}
 	return b.replayInternal(func(i int, kt keyType, k, v []byte) error {
 		return tr.put(kt, k, v)
